@@ -38,7 +38,7 @@ try:
             continue
         meta = json.load(open(d + "/meta.json"))
         checks = meta.get("detected_by") or [meta["breaks_property"]]
-        sh(["git", "checkout", "-q", "--", "."], cwd=wt)
+        sh(["git", "reset", "-q", "--hard", "HEAD"], cwd=wt)      # also clears a failed 3-way apply
         sh(["git", "clean", "-fdq", "-e", "target"], cwd=wt)
         rc, out = sh(["git", "apply", d + "/patch.diff"], cwd=wt)
         if rc != 0:
